@@ -145,7 +145,7 @@ class Gen:
 
     def dense(self):
         """lengths 0..Ld dense for every mode under the fixed key, then block-boundary triples up to
-        4096 (quick) or every length up to 4096 (thorough), spread over the modes round-robin"""
+        4096 (quick) or every length up to 4096 (thorough), the modes taking turns"""
         r = self.r
         modes = ["ecb", "cbc", "ctr", "ctr32", "ofb", "xts", "mac"] + ["cfb%d" % s for s in range(1, 17)]
         Ld = 130 if not self.thorough else 520
@@ -155,13 +155,13 @@ class Gen:
                 self.mode_cases(mode, r.bytes(n), key=K0, tag=":dense")
         big = ["ecb", "cbc", "ctr", "ctr32", "ofb", "xts", "mac", "cfb1", "cfb3", "cfb8", "cfb13", "cfb16"]
         if self.thorough:
-            for mode in big:
-                for n in range(Ld + 1, 4097):
-                    if mode in ("cfb1", "cfb3") and n % 7:    # byte-wise feedback is 16x the work
-                        continue
-                    if mode in ("ctr32", "cfb13", "mac") and n % 3:
-                        continue
-                    self.mode_cases(mode, r.bytes(n), key=K0, tag=":dense", streams=(n % 3 == 0))
+            # every length up to 4096 once, the modes taking turns (cfb1/cfb3: 16x/5x the block calls, kept short)
+            i = 0
+            for n in range(Ld + 1, 4097):
+                mode = big[i % len(big)]; i += 1
+                if mode in ("cfb1", "cfb3") and n > 1500:
+                    mode = ("ctr", "cbc", "ofb", "ecb")[i % 4]
+                self.mode_cases(mode, r.bytes(n), key=K0, tag=":dense", streams=(i % 3 == 0))
         else:
             i = 0
             for kblk in range(Ld // 16 + 1, 257):
@@ -427,11 +427,13 @@ def compare(ctx, cases, impl_exe, model_out, variant):
 def finish(ctx):
     ctx.assumptions = [
         "SM4 Spec = my transcription of GB/T 32907-2016 (S-box, L, L', FK, CK_i formula), pinned by the appendix-A vector (Example sm4_vector, vm_compute)",
-        "mode Specs = my transcription of GB/T 17964 / SP 800-38A (ECB, CBC, CTR, OFB, CFB-s), PKCS#7, GB/T 17964 XTS (GCM bit order tweak), zero-padded CBC-MAC as implemented",
+        "mode Specs = my transcription of GB/T 17964 / SP 800-38A (ECB, CBC, CTR, OFB, CFB-s), PKCS#7 (removal inspects the last byte only, as the library does), GB/T 17964 XTS (GCM bit order tweak), zero-padded CBC-MAC as implemented",
+        "not theorems, compared on every case at run time by the driver instead: xts_encrypt_raw/xts_decrypt_raw = xts_enc_spec/xts_dec_spec (index form of the tweaks and of ciphertext stealing), and xts_mul2 (gf128.c bit-reversed 64-bit words) = xts_mul2_spec (shift of the 128-bit string)",
         "the rotating register names of the unrolled ROUND lines and the word-wise xor of the table-driven *_blocks functions are modelled at block level",
-        "AES-NI/AVX2/small-footprint code paths are covered by correspondence only (same Spec)",
+        "C04_impl_block_functions_eq_spec uses functional_extensionality_dep (Coq standard library); everything else is closed",
+        "AES-NI/AVX2/small-footprint code paths are covered by correspondence only, thorough tier (same Spec); the byte-wise ctr_incr/ctr32_incr of the small-footprint build are modelled and proved",
     ]
     return ctx.finish(level="proof",
-                      rule="cases = block cipher (standard vector, sparse, byte sweep, random) + per mode: every length 0..130 (0..520 thorough) dense, block-boundary triples up to 4096 (every length in thorough), all CFB s=1..16, exhaustive 2-way splits of 50 bytes, random k-way chunkings with empty chunks, in-place (one-shot and block-aligned streaming, encrypt direction), counters at 2^32/2^64/2^128 wrap, XTS tweak carries, malformed lengths/parameters, tampered CBC ciphertexts; a cell = (op, direction/width/segment class, length/chunking/boundary class, ok|ERR); distinct_nontrivial = number of distinct cells on which impl and model agreed and the size oracle held",
+                      rule="cases = block cipher (standard vector, sparse, byte sweep, random) + per mode: every length 0..130 (0..520 thorough) dense, block-boundary triples up to 4096 (thorough: every length 0..4096 once, the modes taking turns), all CFB s=1..16, exhaustive 2-way splits of 50 bytes, random k-way chunkings with empty chunks, in-place (one-shot and block-aligned streaming, encrypt direction), counters at 2^32/2^64/2^128 wrap, XTS tweak carries, malformed lengths/parameters, tampered CBC ciphertexts; a cell = (op, direction/width/segment class, length/chunking/boundary class, ok|ERR); distinct_nontrivial = number of distinct cells on which impl and model agreed and the size oracle held",
                       trusted=core.TRUSTED_COMMON + ["tools/consts_sm4.py (regex copy of S, FK, CK, T0..T3 from src/sm4.c into coq/Gen/Sm4Tables.v)",
-                                                     "Coq files: Cipher/SM4.v SM4Tab.v Modes.v SM4Modes.v (models), BitsX.v SM4Proofs.v ModesProofs.v (proofs), Props/Properties_C04.v"])
+                                                     "Coq files: Cipher/SM4.v SM4Tab.v Modes.v SM4Modes.v Gen/Sm4Tables.v (models), BitsX.v SM4Proofs.v ModesProofs.v SM4ModesProofs.v (proofs), Props/Properties_C04.v"])
